@@ -135,12 +135,17 @@ func (c *IPClient) measureClockOffsetIP(ctx context.Context, mtrcs *ipClientMetr
 			c.Log.LogAttrs(ctx, slog.LevelInfo, "failed to fetch key exchange data", slog.Any("error", err))
 			return time.Time{}, 0, err
 		}
-		remoteAddr.IP = net.ParseIP(ntskeData.Server)
-		remoteAddr.Port = int(ntskeData.Port)
+		// The address object belongs to the caller, who may share it among several
+		// clients: the server named in this client's exchange goes into a copy.
+		remoteAddr = &net.UDPAddr{
+			IP:   net.ParseIP(ntskeData.Server),
+			Port: int(ntskeData.Port),
+			Zone: remoteAddr.Zone,
+		}
 	}
 	ip4 := remoteAddr.IP.To4()
 	if ip4 != nil {
-		remoteAddr.IP = ip4
+		remoteAddr = &net.UDPAddr{IP: ip4, Port: remoteAddr.Port, Zone: remoteAddr.Zone}
 	}
 
 	buf := make([]byte, ntp.PacketLen)
